@@ -46,7 +46,7 @@ func init() {
 		},
 		SimTimeUnit: "executor calls (no clock on this path)",
 	})
-	c10probes := []string{"crash-between-statement-and-bookkeeping", "statement-executed-twice-after-crash", "lease-left-after-crash"}
+	c10probes := []string{"directive-overrides-global-mode", "crash-state-compared", "crash-between-statement-and-bookkeeping", "statement-executed-twice-after-crash", "lease-left-after-crash"}
 	for _, m := range clisim.TxModes {
 		for _, p := range clisim.CrashPoints {
 			c10probes = append(c10probes, "cell:"+m+":"+p)
